@@ -6,12 +6,55 @@
 -/
 import PG.Props.C02
 import PG.Props.C06
+import PG.Lemmas.Utf8L
+import PG.Lemmas.SizeL
 namespace PG
+
+theorem mem_okRecs {items : List Item} {r : Record} : r ∈ okRecs items ↔ Item.ok r ∈ items := by
+  unfold okRecs
+  rw [List.mem_filterMap]
+  constructor
+  · rintro ⟨a, ha, h⟩
+    cases a with
+    | ok r' => simp only [Item.ok?, Option.some.injEq] at h; subst h; exact ha
+    | err l => simp [Item.ok?] at h
+  · intro h; exact ⟨_, h, rfl⟩
 
 /-- every string in every record the parser yields is valid UTF-8 -/
 theorem records_valid_utf8 (bs : Bytes) :
     ∀ r, Item.ok r ∈ records bs → ∀ s ∈ r.strings, validUtf8 s = true := by
-  sorry
+  intro r hr s hs
+  have hok := records_ok_valid bs r hr
+  cases r with
+  | header k v =>
+    obtain ⟨hk, hv⟩ := hok
+    simp only [Record.strings, List.mem_cons, Option.mem_toList] at hs
+    rcases hs with rfl | hs
+    · exact hk
+    · exact hv s hs
+  | cls o b =>
+    obtain ⟨h1, h2⟩ := hok
+    simp only [Record.strings, List.mem_cons, List.not_mem_nil, or_false] at hs
+    rcases hs with rfl | rfl
+    · exact h1
+    · exact h2
+  | field ty o b =>
+    obtain ⟨h1, h2, h3⟩ := hok
+    simp only [Record.strings, List.mem_cons, List.not_mem_nil, or_false] at hs
+    rcases hs with rfl | rfl | rfl
+    · exact h1
+    · exact h2
+    · exact h3
+  | method ty o b a c lm =>
+    obtain ⟨h1, h2, h3, h4, h5⟩ := hok
+    simp only [Record.strings, List.mem_append, List.mem_cons, List.not_mem_nil, or_false,
+      Option.mem_toList] at hs
+    rcases hs with (rfl | rfl | rfl | rfl) | hs
+    · exact h1
+    · exact h2
+    · exact h3
+    · exact h4
+    · exact h5 s hs
 
 /-- the genuine part of C02's representable domain: names non-empty, line numbers < 2^32-1 -/
 def DomainRec : Record → Prop
@@ -27,12 +70,34 @@ def DomainRec : Record → Prop
 /-- for records that come out of the parser, the domain conditions alone give `ReprR` -/
 theorem reprR_of_records (bs : Bytes) (h : ∀ r ∈ okRecs (records bs), DomainRec r) :
     ReprR (okRecs (records bs)) := by
-  sorry
+  intro r hr
+  have hd := h r hr
+  have hv := records_valid_utf8 bs r (mem_okRecs.1 hr)
+  cases r with
+  | header k v =>
+    intro hk x hx
+    refine ⟨hd hk x hx, hv x ?_⟩
+    subst hx
+    simp [Record.strings]
+  | cls o b =>
+    exact ⟨hd.1, hd.2, hv o (by simp [Record.strings]), hv b (by simp [Record.strings])⟩
+  | field ty o b => trivial
+  | method ty o b a fc lm =>
+    obtain ⟨d1, d2, d3, d4⟩ := hd
+    refine ⟨d1, d2, hv o (by simp [Record.strings]), hv b (by simp [Record.strings]),
+      hv a (by simp [Record.strings]), ?_, d4⟩
+    intro x hx
+    refine ⟨d3 x hx, hv x ?_⟩
+    subst hx
+    simp [Record.strings]
 
 /-- a mapping file below 16 MiB always fits the format's counters (the bound is not tight) -/
 theorem small_of_length (bs : Bytes) (h : bs.length < 16777216) :
     (Tables.build (okRecs (records bs))).Small := by
-  sorry
+  obtain ⟨h1, h2, h3, h4⟩ := WI.build_sizes (okRecs (records bs))
+  have hc := okRecs_count bs
+  have hs := records_size bs
+  constructor <;> simp only [u32Bound, u32Max] <;> omega
 
 /-- C02 for mapping bytes: every query kind, cache (written and parsed back) = mapper -/
 theorem C02_bytes (bs : Bytes) (hlen : bs.length < 16777216)
@@ -42,6 +107,14 @@ theorem C02_bytes (bs : Bytes) (hlen : bs.length < 16777216)
       (∀ cls m, c.remapMethod cls m = (Mapper.ofBytes bs true).remapMethod cls m) ∧
       (∀ q, c.remapFrame q = (Mapper.ofBytes bs true).remapFrame q) ∧
       (∀ q, q.params = none → (Mapper.ofBytes bs true).remapFrame q = (Mapper.ofBytes bs false).remapFrame q) := by
-  sorry
+  have hr := reprR_of_records bs hd
+  have hs := small_of_length bs hlen
+  have hp : Cache.parse (Cache.writeBytes bs) =
+      .ok (Cache.ofTables (Tables.build (okRecs (records bs)))) := C02_parses _ hs
+  refine ⟨_, hp, ?_, ?_, ?_, ?_⟩
+  · intro name; exact C02_class _ hr hs true _ hp name
+  · intro cls m; exact C02_method _ hr hs true _ hp cls m
+  · intro q; exact C02_frame _ hr hs _ hp q
+  · intro q hq; exact C02_pm_indep _ q hq
 
 end PG
